@@ -10,6 +10,7 @@ import (
 	"time"
 
 	am "github.com/hashicorp/go-argmapper"
+	"github.com/hashicorp/go-multierror"
 )
 
 // ---------------------------------------------------------------------------
@@ -374,6 +375,9 @@ type FuncSpec struct {
 	Once    bool    `json:"once,omitempty"`
 	Deliver int     `json:"deliver,omitempty"`
 	GenTrig int     `json:"gentrig,omitempty"`
+	// GenName, when set, makes the generator hand the function out only for
+	// a value of the trigger type that also carries this name.
+	GenName string `json:"genname,omitempty"`
 	// CaseMix re-cases the names used in struct tags (argmapper must treat
 	// names case-insensitively).
 	CaseMix bool `json:"casemix,omitempty"`
@@ -517,6 +521,8 @@ type World struct {
 	// obtained from an inner, unsatisfiable call instead of a *failErr.
 	UnsatErrors bool
 	// ZeroErrors (1..4) makes failing bodies return a non-nil error whose
+	// (5, 6: a *multierror.Error with one / two elements, which must come back
+	// as the very value it is)
 	// dynamic value is the zero value of its type: a stateless sentinel
 	// struct, an integer code 0, a typed nil pointer, an empty string type.
 	ZeroErrors int
@@ -645,6 +651,11 @@ func (w *World) record(fi int, spec *FuncSpec, obs []ArgObs, concs []int, enterN
 			err = (*nilPtrErr)(nil)
 		case 4:
 			err = zeroStringErr("")
+		case 5:
+			// an error value that is itself a one-element error list
+			err = &multierror.Error{Errors: []error{fmt.Errorf("generated failure f%d.%d (only element of a list)", fi, ev.Exec)}}
+		case 6:
+			err = &multierror.Error{Errors: []error{fmt.Errorf("first of two"), fmt.Errorf("second of two")}}
 		}
 		if w.UnsatErrors {
 			// a body that uses argmapper itself and hands on the error of an
@@ -694,8 +705,23 @@ func structType(ls []Label, ptr bool, tag string, r *rand.Rand, caseMix bool) re
 		if l.Sub != "" {
 			tags = append(tags, "subtype="+l.Sub)
 		}
+		fname := fmt.Sprintf("F%s_%d", tag, i)
+		if i > 0 && l.Name == "" && r != nil && r.Intn(2) == 0 {
+			// the Go name of a type-only field means nothing (the tag empties
+			// it): call it like one of the value names of the generators
+			cand := string(rune('A' + r.Intn(5)))
+			taken := false
+			for _, f := range sf {
+				if f.Name == cand {
+					taken = true
+				}
+			}
+			if !taken {
+				fname = cand
+			}
+		}
 		sf = append(sf, reflect.StructField{
-			Name: fmt.Sprintf("F%s_%d", tag, i),
+			Name: fname,
 			Type: types[l.Type],
 			Tag:  reflect.StructTag(fmt.Sprintf(`argmapper:"%s"`, strings.Join(tags, ","))),
 		})
@@ -744,6 +770,10 @@ func (w *World) Build(fi int, spec FuncSpec, r *rand.Rand, extra ...am.Arg) (*Bu
 	opts := make([]am.Arg, 0, 8+len(extra))
 	if spec.Once {
 		opts = append(opts, am.FuncOnce())
+		if r != nil && r.Intn(3) == 0 {
+			// options that have nothing to do with each other, in this order
+			opts = append(opts, am.FuncName(fmt.Sprintf("once-f%d", fi)))
+		}
 	}
 	opts = append(opts, extra...)
 	if w.NextDefaults != nil {
@@ -991,8 +1021,9 @@ func InstantiateIn(w *World, s Scenario, r *rand.Rand, targetDefaults ...am.Arg)
 		case DelGen:
 			f := b.Func
 			trig := types[c.GenTrig]
+			gname := c.GenName
 			gens = append(gens, func(v am.Value) (*am.Func, error) {
-				if v.Type == trig {
+				if v.Type == trig && (gname == "" || v.Name == gname) {
 					return f, nil
 				}
 				return nil, nil
@@ -1067,7 +1098,21 @@ func argsViaValueSet(ls []Label, ids []int64) (out []am.Arg) {
 			out = nil
 		}
 	}()
-	vs, err := am.NewValueSet(labelsToValues(ls, nil, false))
+	vals := labelsToValues(ls, nil, false)
+	// a value may be DECLARED with an interface type its concrete type
+	// implements (the output set of a function returning interfaces, filled
+	// with FromResult): it is still handed on as the concrete value it holds
+	for i, l := range ls {
+		if l.Type < nConcrete && ids[i]%3 == 0 {
+			for _, it := range []int{tI0, tI1, tI2} {
+				if implements(l.Type, it) {
+					vals[i].Type = types[it]
+					break
+				}
+			}
+		}
+	}
+	vs, err := am.NewValueSet(vals)
 	if err != nil || vs == nil {
 		return nil
 	}
